@@ -2599,7 +2599,7 @@ class Signature(object):
     def public_key(self, value):
         if value is None:
             return
-        if isinstance(value, bytes):
+        if isinstance(value, (bytes, str)):
             value = HDKey(value)
         if value.is_private:
             value = value.public()
